@@ -139,6 +139,37 @@ Theorem C15_rejected_changes_nothing :
 Proof. exact rejected_changes_nothing. Qed.
 Print Assumptions C15_rejected_changes_nothing.
 
+(** Transactions of several messages: all-or-nothing … *)
+Theorem C15_rejected_tx_changes_nothing :
+  forall blocked s tx, snd (deliver_tx blocked s tx) = false -> fst (deliver_tx blocked s tx) = s.
+Proof. exact deliver_tx_rejected. Qed.
+Print Assumptions C15_rejected_tx_changes_nothing.
+
+(** … a failing message rolls back what earlier messages of the tx wrote (a hand-over inside a
+    rejected tx never happened) … *)
+Theorem C15_failing_message_rolls_back_tx :
+  forall blocked s pre o post,
+  (forall s1, run_msgs blocked s pre = Some s1 -> step blocked s1 o = None) ->
+  deliver_tx blocked s (pre ++ o :: post)%list = (s, false).
+Proof. exact deliver_tx_atomic. Qed.
+Print Assumptions C15_failing_message_rolls_back_tx.
+
+(** … and every message of an accepted tx is an accepted step from the state its predecessors
+    left, so each per-message theorem of this file applies to it; e.g. for the supply: *)
+Theorem C15_accepted_tx_each_message :
+  forall blocked tx s s', run_msgs blocked s tx = Some s' ->
+  forall l1 o l2, tx = (l1 ++ o :: l2)%list ->
+  exists s1 s2, run_msgs blocked s l1 = Some s1 /\ step blocked s1 o = Some s2 /\ run_msgs blocked s2 l2 = Some s'.
+Proof. exact accepted_tx_each_message. Qed.
+Print Assumptions C15_accepted_tx_each_message.
+
+Theorem C15_tx_supply_changes_only_by_admin_mint_burn_partial :
+  forall blocked tx s s' d, run_msgs blocked s tx = Some s' -> supply s' d <> supply s d ->
+  exists l1 o l2 s1 s2, tx = (l1 ++ o :: l2)%list /\ run_msgs blocked s l1 = Some s1 /\ step blocked s1 o = Some s2 /\
+    supply s2 d <> supply s1 d /\ (supply_mover s1 s2 o d \/ own_native_burn s1 s2 o d).
+Proof. exact tx_supply_moved. Qed.
+Print Assumptions C15_tx_supply_changes_only_by_admin_mint_burn_partial.
+
 (** The registry invariant the theorems above assume holds along every history. *)
 Theorem C15_registry_invariant_preserved :
   forall blocked h s, inv s -> inv (fst (run blocked s h)).
